@@ -55,6 +55,9 @@ func init() {
 	reg[uintptr]("uintptr")
 	reg[float32]("float32")
 	reg[float64]("float64")
+	reg[kit.NInt16]("NInt16")
+	reg[kit.NUint8]("NUint8")
+	reg[kit.NFloat32]("NFloat32")
 }
 
 func Check(c *Case) kit.Result {
@@ -364,7 +367,7 @@ func FP(c *Case) uint64 {
 	return h.Sum()
 }
 
-var names = kit.BuiltinNames()
+var names = append(kit.BuiltinNames(), kit.SomeNamed...)
 
 func genBad(t *rapid.T, C, cp int) (int, int) {
 	ext := []int{math.MinInt, math.MaxInt, math.MaxInt/2 + 1, -(math.MaxInt/2 + 1), math.MaxInt/4 + 1, -(math.MaxInt/4 + 1), math.MinInt + 1, math.MaxInt - 1}
